@@ -115,6 +115,19 @@ impl TargetActorHelper {
         }
     }
 
+    /// Acknowledges a requester which registered after the execution completed.
+    pub async fn notify_late_requester(&self, kind: ExecutionKind, requester: ActorId) {
+        if self.executed {
+            let target_id = self.target_id.clone();
+            let msg = ActorInputMessage::Ok {
+                kind,
+                target_id,
+                actual: true,
+            };
+            self.send_to_actor(requester, msg).await
+        }
+    }
+
     pub async fn request_dependencies(&self, kind: ExecutionKind) {
         self.send_to_dependencies(ActorInputMessage::Requested {
             kind,
